@@ -147,6 +147,29 @@ def run(ctx):
                 ctx.violation(dict(key2, clause=clause), "%s: %s" % (shape, msg), {"par": p, "dirs": order})
         else:
             ctx.replayed()
+    # ---- the truncated spreading (under_90=True) and rotation of any spreading: non-negative, integrates to one, symmetric about the
+    # mean direction, and moving the mean direction by whole bins (also across 0/360, also given outside [0,360)) rolls it
+    from wavespectra.construct.direction import cartwright
+    for nd in (12, 24, 36):
+        dd = 360.0 / nd
+        dirs = np.arange(nd) * dd
+        for dspr in (15.0, 30.0, 50.0):
+            for under in (False, True):
+                ref = np.asarray(cartwright(dirs, 180.0, dspr, under_90=under).values, float)
+                for k in range(-nd, nd + 1, max(1, nd // 12)):
+                    dm = 180.0 + k * dd               # runs from -180 to 540: outside [0,360) too
+                    ctx.case(("spread-rot", nd, dspr, under, k), True)
+                    g = np.asarray(cartwright(dirs, dm, dspr, under_90=under).values, float)
+                    probs = []
+                    if g.min() < 0 or not np.isclose(g.sum() * dd, 1.0, rtol=1e-9):
+                        probs.append(("spreading-normalised", "min %.3g, integral %.12g" % (g.min(), g.sum() * dd)))
+                    if not np.allclose(g, np.roll(ref, k), rtol=1e-9, atol=1e-15):
+                        probs.append(("spreading-rotates", "cartwright(dm=%g, under_90=%s) is not the dm=180 spreading rolled by %d bins" % (dm, under, k)))
+                    if probs:
+                        for clause, msg in probs:
+                            ctx.violation({"shape": "cartwright", "clause": clause, "under_90": under}, msg, {"nd": nd, "dspr": dspr, "dm": dm})
+                    else:
+                        ctx.replayed()
     # ---- the numpy twins of the shape functions (model functions of fit_jonswap / fit_gaussian): scaled = unscaled * h^2 / Hs^2
     # under the twin's own measure (trapezoid + tail above 0.333 Hz), same shape as the constructor, gaussian identical
     from wavespectra.core import npstats
